@@ -8,7 +8,7 @@ fn main() {
     let cli = Cli::parse();
     let stdout = Rc::new(RefCell::new(std::io::stdout()));
     let stdin = Box::new(std::io::stdin);
-    let stderr = Rc::new(RefCell::new(std::io::stdout()));
+    let stderr = Rc::new(RefCell::new(std::io::stderr()));
 
     if let Err(err) = go(cli, stdout, stderr, stdin) {
         eprintln!("{err}");
